@@ -32,7 +32,9 @@
 //! set (hickory compares type sets, keeps the original bytes for the signature check); a negative
 //! conclusion reached through a CNAME link of a truly insecure zone (that link is forgeable anyway);
 //! a negative conclusion behind a forged link already reported under (i); a stricter validator
-//! (Bogus where Secure/Insecure was possible).
+//! (Bogus where Secure/Insecure was possible); in the anchored-island worlds (`isl.rs`) an
+//! Insecure/Indeterminate mark on a record whose owner lies outside the anchored zone (no trust anchor
+//! at or above it: RFC 4035 section 4.3 Indeterminate).
 #![allow(dead_code)]
 
 use std::collections::BTreeSet;
@@ -122,7 +124,7 @@ fn validly_presented(c: &Case<'_>, resp: &Resp, owner: &Name, t: u16, genuine: &
         if set.is_empty() {
             continue;
         }
-        if t == ty::DNSKEY && owner.is_empty() && set.iter().all(|rd| is_anchor_key(c.truth, rd)) {
+        if t == ty::DNSKEY && owner == c.truth.anchor_apex() && set.iter().all(|rd| is_anchor_key(c.truth, rd)) {
             return true; // trust anchors need no signature
         }
         if set != *genuine {
@@ -256,6 +258,11 @@ pub fn judge(c: &Case<'_>) -> Vec<Alarm> {
             if zs.iter().any(|z| t.zones[*z].status == Status::Insecure) {
                 continue;
             }
+            if !t.under_anchor(&r.owner) {
+                // anchored-island worlds only: no trust anchor at or above the owner name, RFC 4035
+                // section 4.3 calls that Indeterminate; never the case in the root-anchored worlds
+                continue;
+            }
             // an Ok-with-Bogus outcome is an accepted error signal only if the Bogus mark is in the
             // section a consumer summarises; be conservative: any Bogus in answer/authority silences
             if obs.recs.iter().any(|(x, p)| x.sec != 2 && x.rtype != ty::RRSIG && *p == Proof::Bogus) {
@@ -301,7 +308,7 @@ pub fn judge(c: &Case<'_>) -> Vec<Alarm> {
             }
             // a forged link already reported under (i) explains whatever follows it
             let forged_link_reported = alarms.iter().any(|a| a.rule == "secure-not-genuine");
-            if negative && !via_insecure_link && !forged_link_reported {
+            if negative && !via_insecure_link && !forged_link_reported && t.under_anchor(&n) {
                 let zi = t.responsible(&n, c.qtype);
                 let st = t.zones[zi].status;
                 let secure_denial = obs.recs.iter().any(|(r, p)| r.sec == SEC_NS && matches!(r.rtype, chain::T_NSEC | chain::T_NSEC3) && *p == Proof::Secure);
